@@ -132,6 +132,13 @@ def clip_worlds(tier: str, seed: int) -> list[dict]:
         w["mesh"] = m
         w["enc"] = enc
         out.append(w)
+    # meshes whose connectivity tables are stored transposed ((Two, edge), (max, face)): edge_dimension / face_dimension declared
+    for sup in (["en", "ef"], ["en", "fe", "ef", "ff"]):
+        m = meshtabs.supplied_tables(W.mesh_from_squares(fam[0], shape="skew"), rng)
+        w = W.counts_world("ugrid", nface=len(m["faces"]), nnode=len(m["nodes"]), nedge=len(m["edges"]))
+        w["mesh"] = m
+        w["enc"] = {"base": 1, "fill": "intfill", "supplied": sup, "edge_dim": "declared", "coords_as": "plain", "transposed": True}
+        out.append(w)
     vias = ["memory", "file", "memory", "emsopen", "dask", "memory"]       # how the dataset being clipped is held (viafile.hold)
     for k, w in enumerate(out):
         add_clip_vars(w, rng)
